@@ -296,6 +296,9 @@ def r4_chebyshev(ctx):
         idx = w.target[2][1]
         idx = idx[2] if idx[0] == 'agg' and idx[1] == 'array' else (idx,)
         nexts = [x for x in walk(w.value) if is_call(x, 'Iterator::next')]
+        if not nexts:
+            # the value does not mention the loop item directly (an accumulated sum): the item is the one the row index comes from
+            nexts = [x for x in walk(idx) if is_call(x, 'Iterator::next')]
         it = nexts[0] if nexts else None
         src_ok = it is not None and is_call(it[2][0], 'enumerate') and is_call(it[2][0][2][0], 'ArrayBase::outer_iter', 'ArrayBase::rows', 'ArrayBase::axis_iter') and it[2][0][2][0][2][0] == SM
         if is_call(it[2][0][2][0], 'ArrayBase::axis_iter') if it is not None and src_ok else False:
@@ -317,6 +320,10 @@ def r4_chebyshev(ctx):
                 val_ok = False
         if not val_ok and is_call(v, 'Float::sqrt', 'f64::sqrt') and is_call(v[2][0], 'ArrayBase::dot') and src_ok:
             val_ok = v[2][0][2][0] == ('field', it, '1') and v[2][0][2][1] == ('field', it, '1')
+        if not val_ok and src_ok:
+            # any other spelling of the Euclidean norm (accumulator loop / fold, iterator map + sum, shared helper) of the same row
+            from .prune import l2_norm_row
+            val_ok = l2_norm_row(ctx.facts, b, R, v) == ('field', it, '1')
         lits = [l for l in literals(b, R, w.bb) if not (l[0] == 'is' and is_call(l[1], 'Iterator::next'))]
         good = src_ok and idx_ok and val_ok and not lits
         why = 'norm[i] is not the Euclidean norm of row i of A for every row (rows=%s index=%s value=%s unconditional=%s)' % (src_ok, idx_ok, val_ok, not lits)
